@@ -113,6 +113,17 @@ MUTANTS = [
      "chain-fires-wrongly"),
     ("c20-zero-length-guard", "core/src/timeline_helpers.rs", "    if duration == 0.0 {\n        return start_frame.value.clone();\n    }\n", "",
      ["C20", "C01"], "undischarged"),
+    # vacuity probes added after seeded round 3: a *missing* test must not let a rule pass by default
+    ("c01-no-synthetic-start", "core/src/timeline_helpers.rs",
+     "if converted_frames.is_empty() && keyframe.normalized_time > 0.0 {", "if false {", ["C01", "C08"], "start-frame-not-decided"),
+    ("c18-never-ends", "bevy/src/animator.rs",
+     "        if position_secs >= timeline_duration && animator.state != AnimationState::Ended {\n            animator.state = AnimationState::Ended;\n            state_changed = true;\n        }\n",
+     "", ["C18"], "end-test-missing"),
+    ("c12-ordinal-infinite", "core/src/timeline.rs", "Repeat::Infinite => u32::MAX,", "Repeat::Infinite => 0,", ["C12"], "repeat-order-wrong"),
+    ("c03-raw-time-quot", "core/src/time_scale.rs", "let (quot, rem) = (time / self.duration, time % self.duration);",
+     "let (quot, rem) = ((time + self.delay) / self.duration, time % self.duration);", ["C03"], "raw-time-used"),
+    ("c20-lerp-difference", "core/src/interpolation.rs", "        self * (1.0 - x) + y1 * x\n", "        self + (y1 - self) * x\n", ["C20"],
+     "intermediate-unbounded"),
 ]
 
 REFACTORS = [
